@@ -17,6 +17,7 @@ import (
 
 	. "adharness/common"
 
+	ad "github.com/pbenner/autodiff"
 	"github.com/pbenner/autodiff/special"
 )
 
@@ -29,7 +30,11 @@ type Case struct {
 	Incons string       `json:"incons,omitempty"`
 	Class  string       `json:"class"`
 	V      *VCase       `json:"v,omitempty"` // vector families (vector.go)
+	Ops    []HOp        `json:"ops,omitempty"` // mutator history between constructor and method (hist.go)
+	FP     *Params      `json:"fp,omitempty"`  // parameters reported after the history
 }
+
+func specialGammaP(a, x float64) float64 { return special.GammaP(a, x) }
 
 // ---- Coq real literals --------------------------------------------------------
 
@@ -116,9 +121,13 @@ func caseCoq(f *Fam, c Case) string {
 	}
 	var hyps []string
 	seen := map[string]bool{}
+	hp := c.P // the parameters the special functions are called with: after a history, the final ones
+	if c.FP != nil {
+		hp = *c.FP
+	}
 	if c.Obs.Kind != "ctorerr" {
 		if f.Lg != nil {
-			for _, a := range f.Lg(c.P, c.X, c.Fn) {
+			for _, a := range f.Lg(hp, c.X, c.Fn) {
 				v := lgammaGo(a)
 				if math.IsNaN(v) || math.IsInf(v, 0) || math.IsNaN(a) {
 					continue
@@ -131,7 +140,7 @@ func caseCoq(f *Fam, c Case) string {
 			}
 		}
 		if f.Gp != nil {
-			for _, ab := range f.Gp(c.P, c.X, c.Fn) {
+			for _, ab := range f.Gp(hp, c.X, c.Fn) {
 				v := special.GammaP(ab[0], ab[1])
 				if math.IsNaN(v) || math.IsInf(v, 0) {
 					continue
@@ -140,7 +149,7 @@ func caseCoq(f *Fam, c Case) string {
 			}
 		}
 		if f.Le != nil {
-			for _, a := range f.Le(c.P, c.X, c.Fn) {
+			for _, a := range f.Le(hp, c.X, c.Fn) {
 				v := special.LogErfc(a)
 				if math.IsNaN(v) || math.IsInf(v, 0) {
 					continue
@@ -154,16 +163,24 @@ func caseCoq(f *Fam, c Case) string {
 		}
 	}
 	var sb strings.Builder
+	if c.Ops != nil {
+		sb.WriteString("@H")
+	}
 	sb.WriteString("(forall lgam lerfc gamP, ")
 	for _, h := range hyps {
 		sb.WriteString(h + " -> ")
+	}
+	if c.Ops != nil {
+		sb.WriteString(fmt.Sprintf("agrees (heval lgam lerfc gamP %s %s %s %s %s %s) %s)",
+			f.Name, c.Fn, RList(c.P.Ps), ZList64(c.P.Zs), opsCoq(c.Ops), RX(c.X, f.Discrete), obsCoq(f, c.Obs)))
+		return sb.String()
 	}
 	sb.WriteString(fmt.Sprintf("agrees (eval lgam lerfc gamP %s %s %s %s %s) %s)",
 		f.Name, c.Fn, RList(c.P.Ps), ZList64(c.P.Zs), RX(c.X, f.Discrete), obsCoq(f, c.Obs)))
 	return sb.String()
 }
 
-const shardHeader = "From Coq Require Import Reals ZArith List. Import ListNotations.\nFrom ADV Require Import C14.ER C14.Model C14.VModel C14.Corr.\nOpen Scope R_scope.\nGoal True.\n"
+const shardHeader = "From Coq Require Import Reals ZArith List. Import ListNotations.\nFrom ADV Require Import C14.ER C14.Model C14.VModel C14.SModel C14.Corr C14.CorrH.\nOpen Scope R_scope.\nGoal True.\n"
 
 // shards of `per` cases for props[0:split) and of `per2` cases for props[split:) (the vector cases, whose
 // certificates are slower); the case index printed on a mismatch is the global index
@@ -189,7 +206,11 @@ func writeShards(dir, stem string, props []string, per int, splits ...int) (int,
 		var sb strings.Builder
 		sb.WriteString(shardHeader)
 		for i := start; i < end; i++ {
-			sb.WriteString(fmt.Sprintf("chk %d%%nat %s.\n", i, props[i]))
+			tac, pr := "chk", props[i]
+			if strings.HasPrefix(pr, "@H") { // mutator history: CorrH.solve_hcase
+				tac, pr = "chkh", pr[2:]
+			}
+			sb.WriteString(fmt.Sprintf("%s %d%%nat %s.\n", tac, i, pr))
 		}
 		sb.WriteString("exact I. Qed.\n")
 		if err := os.WriteFile(filepath.Join(dir, fmt.Sprintf("%s_%d.v", stem, n)), []byte(sb.String()), 0644); err != nil {
@@ -256,6 +277,19 @@ func rerun(c Case) (Case, *Fam) {
 	if f == nil {
 		Die("unknown family %s", c.Fam)
 	}
+	if c.Ops != nil {
+		h := runHist(f, ad.Real64Type, c.P, c.Ops, nil)
+		switch h.status {
+		case "ok":
+			fp := finalParams(f, h)
+			c.Obs, c.FP, c.Ops = call(h.d, c.Fn, ad.NewReal64(0.5), c.X), &fp, h.done
+		case "panic":
+			c.Obs = Outcome{"panic", 0}
+		default:
+			c.Obs = Outcome{"ctorerr", 0}
+		}
+		return c, f
+	}
 	c.Obs, c.Incons = evalAll(f, c.P, c.Fn, c.X)
 	return c, f
 }
@@ -264,6 +298,10 @@ func main() {
 	o := ParseFlags()
 	if o.Extra == "hunt" {
 		hunt(o)
+		return
+	}
+	if o.Extra == "inventory" {
+		inventory(o.Replay, o.Out)
 		return
 	}
 	if o.Replay != "" {
@@ -324,6 +362,24 @@ func main() {
 	for k := 0; len(cases) < o.N+hist["corpus"]; k++ {
 		f := &families[k%len(families)]
 		add(genCase(f, rng.Split()), f, "")
+	}
+	// mutator histories (hist.go): constructor, 1-4 mutators with changing values, one method call
+	hr := NewRng(o.Seed*1000003 + 31)
+	nh := o.N / 4
+	for k, tries := 0, 0; k < nh && tries < 20*nh; tries++ {
+		f := &families[tries%len(families)]
+		if f.Name == "FDelta" {
+			continue
+		}
+		c, ok := genHistCase(f, hr.Split(), tries)
+		if !ok {
+			continue
+		}
+		add(c, f, "history")
+		for _, op := range c.Ops {
+			hist["history-op:"+op.K]++
+		}
+		k++
 	}
 	// vector families: d = 1..4 in turn (odd and even), Float64 and Real64 parameters
 	nScalar := len(props)
